@@ -3,7 +3,7 @@ CONSTANTS
   N = 4
   MaxView = 1
   Height = 1
-  InitSilentSets <- SilentAny
+  InitSilentSets <- SilentBackup
   MaxSilentChanges = 0
 INVARIANTS Agreement AcceptJustified CommitLock
 CHECK_DEADLOCK FALSE
